@@ -1,7 +1,7 @@
 CONSTANTS Devices = {"d1", "d2"}
  Chals = {"ch1", "ch2"}
  Beacons = {"b1", "b2"}
- MaxNet = 2
+ MaxNet = 3
 INIT Init
 NEXT MCNext
 INVARIANT BoundToChallenge
